@@ -349,7 +349,7 @@ func (x *Exec) applyContract(st *State, fr *Frame, in ssa.Instruction, fn *ssa.F
 	}
 	x.havocForCall(st, fn, mods)
 	// captured variables the literal assigns
-	for i := range x.modSetOf(fn).frees {
+	for _, i := range sortedInts(x.modSetOf(fn).frees) {
 		if i < len(bind) {
 			if p, ok := bind[i].(*Place); ok && p.Kind == pkCell && len(p.Path) == 0 {
 				st.cells[p.Cell] = x.havocCell(st, p.Cell, st.cells[p.Cell])
@@ -407,8 +407,8 @@ func (x *Exec) havocForCall(st *State, fn *ssa.Function, mods []string) {
 			names[n] = true
 		}
 	}
-	for n, s := range ms.arrays {
-		x.getArr(st, n, s)
+	for _, n := range sortedKeys(keysOf(ms.arrays)) {
+		x.getArr(st, n, ms.arrays[n])
 		names[n] = true
 	}
 	for _, n := range sortedKeys(names) {
@@ -629,6 +629,12 @@ func (x *Exec) appendOp(st *State, fr *Frame, in ssa.Instruction, cc *ssa.CallCo
 	q := x.fresh("i")
 	slen := app("s_len", s)
 	x.assume(st, "(forall (("+q+" Int)) (! (=> (and (<= 0 "+q+") (< "+q+" "+slen+")) (= (select "+na+" "+q+") (select (select "+arr+" (s_arr "+s+")) (at (s_off "+s+") "+q+")))) :pattern ((select "+na+" "+q+"))))")
+	// the same fact (at 0 i = i), addressed the way the new slice will address it and triggered by the
+	// index term of the old element alone: an old element named by a hypothesis (for instance the
+	// witness of an exists over the old slice) then yields its counterpart in the new slice by
+	// E-matching, whichever version of the heap array the hypothesis mentions
+	q0 := x.fresh("i")
+	x.assume(st, "(forall (("+q0+" Int)) (! (=> (and (<= 0 "+q0+") (< "+q0+" "+slen+")) (= (select "+na+" (at 0 "+q0+")) (select (select "+arr+" (s_arr "+s+")) (at (s_off "+s+") "+q0+")))) :pattern ((at (s_off "+s+") "+q0+"))))")
 	if n, ok := numeral(simplifyLen(tlen, st)); ok && n <= 8 {
 		for i := int64(0); i < n; i++ {
 			// addressed the way the new slice (offset 0) will address it, so that it can serve as a witness
